@@ -254,6 +254,13 @@ def run(chk):
         c = subs[0]
         if len(c["loops"]) != 2:
             chk.broken("row subtraction is not inside an (i, j) nest")
+        inplace = [p_ for p_ in ps if p_["kind"] == "store" and sym.root_of(p_["lv"]) == sym.sym(ai)]
+        if inplace:
+            # the rounding offset is added to (and later removed from) the caller's mask array instead of a local copy: the digit
+            # expression then depends on the pass that ran before it -- an arrangement the digit rules below do not model
+            # (whether the input is restored is C15's question)
+            chk.broken("lweKeySwitchTranslate_fromArray: the input mask is patched in place at line %s; the digit rules do not model a value carried "
+                       "from one level pass to the next" % inplace[0]["line"])
         il, jl = c["loops"]
         i, j = il["var"], jl["var"]
         row = c["args"][1]           # &ks[i][j][aij]
